@@ -281,13 +281,26 @@ func register(ids string, fn func(repo string, o *Out) error) {
 // Generate runs the extractors that serve property id ("" = all) and rewrites their files.
 func Generate(repo, dir, id string) error {
 	o := &Out{dir: dir, files: map[string]*strings.Builder{}}
+	failed := false
 	for _, e := range extractors {
 		if id != "" && !strings.Contains(" "+e.ids+" ", " "+id+" ") {
 			continue
 		}
 		if err := e.fn(repo, o); err != nil {
-			return err
+			if id != "" {
+				return err
+			}
+			// generating for everybody: one property's missing table must not
+			// keep the others' files from being written
+			fmt.Fprintln(os.Stderr, "facts:", err)
+			failed = true
 		}
 	}
-	return o.Flush()
+	if err := o.Flush(); err != nil {
+		return err
+	}
+	if failed {
+		return fmt.Errorf("some extractors failed")
+	}
+	return nil
 }
